@@ -296,7 +296,7 @@ struct Env {
 // ---------------------------------------------------------------------------------------------------------------
 // case description
 const std::vector<std::string> kStructDefs = {"ℬ(X1)", "ℬ(X1×X2)", "ℬ(X1×X1)", "ℬ(ℬ(X1))", "ℬ(X2)", "ℬ(X9)"};
-const std::vector<std::string> kTermDefs = {"X1∪X1", "X1\\X2", "Pr1(S1)", "X1∩X2", "D1∪X1", "X1\\X1", "Pr2(S1)", "S1∪S1", "X1∪", "X7\\X1", "X1∪S1", ""};
+const std::vector<std::string> kTermDefs = {"X1∪X1", "X1\\X2", "Pr1(S1)", "X1∩X2", "D1∪X1", "X1\\X1", "Pr2(S1)", "S1∪S1", "X1∪", "X7\\X1", "X1∪S1", "", "X3∪X4", "X4\\X2", "X5∪X3", "X2∩X4", "X6∪X5"};
 const std::vector<std::string> kTerms = {"", "alpha", "beta"};
 const std::vector<std::string> kTexts = {"", "some text"};
 
@@ -1143,9 +1143,9 @@ struct Runner {
   }
 };
 
-Verdict propHistory(Ctx& c) {
+Verdict runHistory(Ctx& c, bool deepDiamond) {
   const uint64_t idSeed = static_cast<uint64_t>(c.pick(0, 1000));
-  const int mode = c.ipick(0, 2);  // 0 free, 1 chain prefix, 2 diamond prefix
+  const int mode = deepDiamond ? 3 : c.ipick(0, 2);  // 0 free, 1 chain prefix, 2 diamond prefix, 3 scripted: grandchild under a diamond
   const size_t nOps = static_cast<size_t>(c.ipick(3, 25));
   Gen g(c, nOps);
   if (mode != 0) {
@@ -1163,6 +1163,25 @@ Verdict propHistory(Ctx& c) {
       if (g.n() < 5 || !g.ps[3].isOp || !g.ps[4].isOp) break;  // a random step erased part of the chain
       if (stage % 2 == 0) g.edit(P, true); else g.exec(stage == 1 ? 3 : 4);
     }
+  }
+  if (mode == 3) {
+    // two operations over one shared base schema, their merge T (every constituent of the shared schema arrives twice; the
+    // second copy gets a fresh identifier on every execution of T), a child G of T with the user's own additions, then T and G
+    // executed again after a change below
+    g.budget = std::max<size_t>(g.budget, 24);
+    g.newBase(true); g.newBase(true); g.newBase(true); g.newBase(true);
+    g.newOp(0, 1); g.init(4);
+    g.newOp(0, 2); g.init(5);
+    g.newOp(4, 5); g.init(6);
+    g.newOp(6, 3); g.init(7);
+    g.exec(7);
+    const int additions = c.ipick(1, 3);
+    for (int i = 0; i < additions; ++i) g.edit(7, true);
+    if (c.coin()) g.step(true);
+    g.edit(c.ipick(0, 2), true);
+    if (c.coin()) g.exec(6);
+    g.exec(7);
+    if (c.coin()) { g.edit(c.ipick(0, 2), true); g.exec(7); }
   }
   while (g.room()) g.step(mode != 0);
   c.show << "idseed=" << idSeed << " mode=" << mode << " ops:";
@@ -1191,11 +1210,16 @@ Verdict propHistory(Ctx& c) {
   return pbt::pass();
 }
 
+Verdict propHistory(Ctx& c) { return runHistory(c, false); }
+Verdict propDeepDiamond(Ctx& c) { return runHistory(c, true); }
+
 }  // namespace
 
 int main(int argc, char** argv) {
   std::vector<pbt::Prop> props;
   props.push_back({"history", propHistory, 1500, 8000, false, false,
                    "histories of 3-25 OSS operations; non-trivial = edit/execute child/edit again/execute grandchild, or load with permuted items, or an executed diamond"});
+  props.push_back({"deep_diamond", propDeepDiamond, 400, 3000, false, false,
+                   "scripted prefix: a grandchild with user additions under a diamond over one shared base schema, the diamond and the grandchild executed again after a change below; then random operations"});
   return pbt::main(argc, argv, "C19", props);
 }
